@@ -75,6 +75,45 @@ theorem C20_translated_dial (f : Spec.C20.Form) (h : f.wf = true) :
   rw [this]
   exact Props.C20.C20_dial f h
 
+theorem hasPrefix_isWs (addr : List Char) :
+    (GoRT.strings_HasPrefix addr ['w', 's', ':'] || GoRT.strings_HasPrefix addr ['w', 's', 's', ':']) = isWs addr := rfl
+
+open Gen.TrRoot in
+/-- `NewClientTransport`, translated: a WebSocket transport with the configuration untouched exactly when the model
+chooses `ws`; otherwise the XMPP transport, the client stream opening, and the address normalised by `ensurePort`
+with 5222 - every other configuration field unchanged. -/
+theorem tr_NewClientTransport (cfg : TransportConfiguration) :
+    NewClientTransport cfg =
+      match clientTransport cfg.Address with
+      | .ws => Transport.WebsocketTransport { Config := cfg }
+      | .xmpp dial => Transport.XMPPTransport { Config := { cfg with Address := dial }, openStatement := clientStreamOpen }
+      | .refused => Transport.nil := by
+  unfold NewClientTransport clientTransport
+  rw [hasPrefix_isWs]
+  by_cases h : isWs cfg.Address = true
+  · simp [h]
+  · have := tr_ensurePort cfg.Address 5222
+    rw [show ((5222 : Nat) : Int) = (5222 : Int) by rfl] at this
+    simp [h, this, defaultPort]
+
+open Gen.TrRoot in
+/-- `NewComponentTransport`, translated: refused with an error (and no transport) exactly when the model refuses. -/
+theorem tr_NewComponentTransport (cfg : TransportConfiguration) :
+    NewComponentTransport cfg =
+      match componentTransport cfg.Address with
+      | .refused => (Transport.nil, GoRT.Err.plain)
+      | .xmpp dial => (Transport.XMPPTransport { Config := { cfg with Address := dial }, openStatement := componentStreamOpen }, GoRT.Err.none)
+      | .ws => (Transport.nil, GoRT.Err.none) := by
+  unfold NewComponentTransport componentTransport
+  rw [hasPrefix_isWs]
+  by_cases h : isWs cfg.Address = true
+  · simp [h]
+  · have := tr_ensurePort cfg.Address 5222
+    rw [show ((5222 : Nat) : Int) = (5222 : Int) by rfl] at this
+    simp [h, this, defaultPort]
+
 end XmppVerif.Tie.TrAddr
 #print axioms XmppVerif.Tie.TrAddr.tr_ensurePort
 #print axioms XmppVerif.Tie.TrAddr.C20_translated_dial
+#print axioms XmppVerif.Tie.TrAddr.tr_NewClientTransport
+#print axioms XmppVerif.Tie.TrAddr.tr_NewComponentTransport
